@@ -46,6 +46,7 @@ C05why(e) ==
 C19why(e) ==
   IF e.ok THEN {}
   ELSE (IF e.nyield # e.nleaves THEN {"cfgerrors.All yielded a different number of errors than the join tree has leaves"} ELSE {})
+       \cup (IF e.nyield # e.nlines THEN {"cfgerrors.All yielded a different number of errors than violations are reported (lines of the message)"} ELSE {})
        \cup (IF e.nyield < Cardinality(Violations(e.cfg)) THEN {"fewer errors yielded than distinct violations"} ELSE {})
        \cup (IF e.panicked THEN {"cfgerrors.All panicked"} ELSE {})
 
